@@ -49,7 +49,7 @@ META = {
         "a completion at exactly the fault date may be reported either way (tie)",
         "a comm uses: the hosts of its two actors and the links of the (symmetric) route between them; same-host comms use no link",
     ],
-    "ready": False,
+    "ready": True,
 }
 
 ENGINE_ARGS = ["--log=root.thres:critical"]
